@@ -626,7 +626,9 @@ def check_netcdf(ctx, rng, idx, tmp, cases, lazy_cases, search=False):
 # CSV
 def gen_csv(rng, path):
     ncols = rng.randint(1, 4)
-    header = rng.sample(["index", "temperature", "site", "a", "b", "c_1", "lat"], ncols)
+    # plain names and an empty one (a column without
+    # a title is still a column)
+    header = rng.sample(["index", "temperature", "site", "a", "b", "c_1", "lat", ""], ncols)
     kinds = [rng.choice("ns") for _ in header]
     nrows = rng.choice([0, 1, 2, 3, 5])
     rows = []
